@@ -1012,3 +1012,15 @@ def o5d(h):
     for ws in (True, False):
         for up in (True, False):
             px.run_px(h, 'driver[warm=%s,precond=%s]' % (ws, up), make_solve_harness(ws, up), cap=20)
+
+
+@obligation(P, 'O6.settings_constructor', cap=300)
+def o6_settings(h):
+    """TrustRegionSPG.get_settings puts every keyword into the Settings field of the same name (the solver reads fields by name)"""
+    from .c01 import make_generic_settings_harness
+    h.encoded('optimism.TrustRegionSPG:get_settings', 'optimism.TrustRegionSPG:Settings')
+    h.bounds('every keyword symbolic (reals, integers, Booleans)')
+    import inspect
+    from ..px import load_module
+    m = load_module('optimism/TrustRegionSPG.py')
+    px.run_px(h, 'settings', make_generic_settings_harness('optimism/TrustRegionSPG.py', 'settings_with_new_tol' if hasattr(m, 'settings_with_new_tol') else None), cap=20)
